@@ -38,13 +38,13 @@ Log(x) == hist' = Append(hist, x) /\ UNCHANGED <<nb, at, pc0v, gph>>
 GRun ==
   \/ Run /\ Log(<<"run">>)
   \/ (PickSkip \/ PickBegin \/ Finish) /\ Keep
-  \/ \E p \in Pipes : (Take(p) \/ (SrcNone(p) /\ Unfin(p) = {}) \/ Begin(p) \/ PReturnOK(p) \/ PFail(p)) /\ Keep
-  \/ \E p \in Pipes, i \in Items : BeginNext(p, i) /\ Keep
-  \/ \E p \in Pipes, i \in Items : EndOK(p, i) /\ hist' = Append(hist, <<"body", p, i, (st[p][i] + 1) \div 2>>)
+  \/ \E p \in 1..NP : (Take(p) \/ (SrcNone(p) /\ Unfin(p) = {}) \/ Begin(p) \/ PReturnOK(p) \/ PFail(p)) /\ Keep
+  \/ \E p \in 1..NP, i \in Items : BeginNext(p, i) /\ Keep
+  \/ \E p \in 1..NP, i \in Items : EndOK(p, i) /\ hist' = Append(hist, <<"body", p, i, (st[p][i] + 1) \div 2>>)
                                    /\ nb' = nb + 1 /\ UNCHANGED <<at, pc0v, gph>>
-  \/ \E p \in Pipes, i \in Items, x \in XUse : TaskRaise(p, i, x) /\ nb >= At("raise")
+  \/ \E p \in 1..NP, i \in Items, x \in XUse : TaskRaise(p, i, x) /\ nb >= At("raise")
                                    /\ Log(<<"braise", p, i, (st[p][i] + 1) \div 2, x>>)
-  \/ \E p \in Pipes, x \in XUse : SrcRaise(p, x) /\ nb >= At("raise") /\ Log(<<"sraise", x>>)
+  \/ \E p \in 1..NP, x \in XUse : SrcRaise(p, x) /\ nb >= At("raise") /\ Log(<<"sraise", x>>)
   \/ (StopAccepted \/ StopIgnored) /\ nb >= At("stop") /\ Log(<<"stop">>)
   \/ \E c \in 0..CMax : SetConc(c) /\ nb >= At("conc") /\ Log(<<"setc", c>>)
   \/ \E c \in UecVals : Uec(c) /\ nb >= At("uec") /\ Log(<<"uec", c>>)
